@@ -419,23 +419,26 @@ def serializeICMPv6 (l : ICMPv6) (b : SBuf) (o : SOpts) : Res (SBuf × ICMPv6) :
       let buf ← put16R buf 2 l.checksum
       pure (fill b1 w buf, l)
 
+/-- `bytes, err := b.PrependBytes(n)` followed by a straight-line sequence of stores `prog` into
+    the returned slice (given its current — stale — bytes, returns its bytes after the stores). -/
+def withWindow (b : SBuf) (n : Nat) (prog : Bytes → Res Bytes) : Res SBuf :=
+  let (b1, w) := prepend b n
+  prog (winBytes b1 w) >>= fun buf => pure (fill b1 w buf)
+
 /-- (*ICMPv6Echo).SerializeTo -/
-def serializeEcho (l : Echo) (b : SBuf) (_o : SOpts) : Res (SBuf × Echo) :=
-  let (b1, w) := prepend b 4
-  do
-    let buf ← put16R (winBytes b1 w) 0 l.identifier
-    let buf ← put16R buf 2 l.seqNumber
-    pure (fill b1 w buf, l)
+def serializeEcho (l : Echo) (b : SBuf) (_o : SOpts) : Res (SBuf × Echo) := do
+  let b' ← withWindow b 4 fun buf => do
+    let buf ← put16R buf 0 l.identifier
+    put16R buf 2 l.seqNumber
+  pure (b', l)
 
 /-- One iteration of the loop of (*ICMPv6Options).SerializeTo. -/
 def serializeOpt (o : Opt) (b : SBuf) : Res SBuf :=
   let length := o.data.length + 2
-  let (b1, w) := prepend b length
-  do
-    let buf ← setR (winBytes b1 w) 0 (u8 o.typ)
+  withWindow b length fun buf => do
+    let buf ← setR buf 0 (u8 o.typ)
     let buf ← setR buf 1 (u8 (length / 8))
-    let buf ← putR buf 2 o.data
-    pure (fill b1 w buf)
+    putR buf 2 o.data
 
 /-- The options in the order the loop visits them. -/
 def serializeOptsIn : List Opt → SBuf → Res SBuf
@@ -451,20 +454,19 @@ def serializeOptsOrig (opts : List Opt) (b : SBuf) : Res SBuf := serializeOptsIn
 /-- (*ICMPv6RouterSolicitation).SerializeTo -/
 def serializeRS (l : RS) (b : SBuf) (_o : SOpts) : Res (SBuf × RS) := do
   let b0 ← serializeOpts l.options b
-  let (b1, w) := prepend b0 4
-  let buf ← putR (winBytes b1 w) 0 (zeros 4)
-  pure (fill b1 w buf, l)
+  let b' ← withWindow b0 4 fun buf => putR buf 0 (zeros 4)
+  pure (b', l)
 
 /-- (*ICMPv6RouterAdvertisement).SerializeTo -/
 def serializeRA (l : RA) (b : SBuf) (_o : SOpts) : Res (SBuf × RA) := do
   let b0 ← serializeOpts l.options b
-  let (b1, w) := prepend b0 12
-  let buf ← setR (winBytes b1 w) 0 (u8 l.hopLimit)
-  let buf ← setR buf 1 (u8 l.flags)
-  let buf ← put16R buf 2 l.routerLifetime
-  let buf ← put32R buf 4 l.reachableTime
-  let buf ← put32R buf 8 l.retransTimer
-  pure (fill b1 w buf, l)
+  let b' ← withWindow b0 12 fun buf => do
+    let buf ← setR buf 0 (u8 l.hopLimit)
+    let buf ← setR buf 1 (u8 l.flags)
+    let buf ← put16R buf 2 l.routerLifetime
+    let buf ← put32R buf 4 l.reachableTime
+    put32R buf 8 l.retransTimer
+  pure (b', l)
 
 /-- checkIPv6Address(addr) == nil -/
 def isIPv6 (a : Bytes) : Bool := a.length == 16
@@ -473,39 +475,40 @@ def isIPv6 (a : Bytes) : Bool := a.length == 16
 def serializeNS (l : NS) (b : SBuf) (_o : SOpts) : Res (SBuf × NS) :=
   if ¬ isIPv6 l.targetAddress then .err "target address" else do
   let b0 ← serializeOpts l.options b
-  let (b1, w) := prepend b0 20
-  let buf ← putR (winBytes b1 w) 0 (zeros 4)
-  let buf ← putR buf 4 l.targetAddress
-  pure (fill b1 w buf, l)
+  let b' ← withWindow b0 20 fun buf => do
+    let buf ← putR buf 0 (zeros 4)
+    putR buf 4 l.targetAddress
+  pure (b', l)
 
-/-- The pinned (pre-fix) NS serializer body: no address check, `copy` writes only `len` bytes. -/
+/-- The pinned (pre-fix) NS serializer: no address check (`copy` writes only `len` bytes) and
+    the pre-fix option order. -/
 def serializeNSOrig (l : NS) (b : SBuf) (_o : SOpts) : Res (SBuf × NS) := do
   let b0 ← serializeOptsOrig l.options b
-  let (b1, w) := prepend b0 20
-  let buf ← putR (winBytes b1 w) 0 (zeros 4)
-  let buf ← putR buf 4 l.targetAddress
-  pure (fill b1 w buf, l)
+  let b' ← withWindow b0 20 fun buf => do
+    let buf ← putR buf 0 (zeros 4)
+    putR buf 4 l.targetAddress
+  pure (b', l)
 
 /-- (*ICMPv6NeighborAdvertisement).SerializeTo with fix licmp-3. -/
 def serializeNA (l : NA) (b : SBuf) (_o : SOpts) : Res (SBuf × NA) :=
   if ¬ isIPv6 l.targetAddress then .err "target address" else do
   let b0 ← serializeOpts l.options b
-  let (b1, w) := prepend b0 20
-  let buf ← setR (winBytes b1 w) 0 (u8 l.flags)
-  let buf ← putR buf 1 (zeros 3)
-  let buf ← putR buf 4 l.targetAddress
-  pure (fill b1 w buf, l)
+  let b' ← withWindow b0 20 fun buf => do
+    let buf ← setR buf 0 (u8 l.flags)
+    let buf ← putR buf 1 (zeros 3)
+    putR buf 4 l.targetAddress
+  pure (b', l)
 
 /-- (*ICMPv6Redirect).SerializeTo with fix licmp-3. -/
 def serializeRedirect (l : Redirect) (b : SBuf) (_o : SOpts) : Res (SBuf × Redirect) :=
   if ¬ isIPv6 l.targetAddress then .err "target address"
   else if ¬ isIPv6 l.destinationAddress then .err "destination address" else do
   let b0 ← serializeOpts l.options b
-  let (b1, w) := prepend b0 36
-  let buf ← putR (winBytes b1 w) 0 (zeros 4)
-  let buf ← putR buf 4 l.targetAddress
-  let buf ← putR buf 20 l.destinationAddress
-  pure (fill b1 w buf, l)
+  let b' ← withWindow b0 36 fun buf => do
+    let buf ← putR buf 0 (zeros 4)
+    let buf ← putR buf 4 l.targetAddress
+    putR buf 20 l.destinationAddress
+  pure (b', l)
 
 /-! ## The case's reusable objects, generic dispatch -/
 
